@@ -144,6 +144,12 @@ Definition wf_lat (ct : ctable) : bool :=
              forallb (fun d => forallb (fun e => mem_cid e (c_mro (snd p))) (c_mro (cls_of ct d))) (c_mro (snd p))
              && forallb (plain_up ct) (c_promote (snd p))) (classes ct).
 
+(* promotion chains starting at c (through any ancestor) have length <= n; gives a sufficient fuel *)
+Fixpoint chain_ok (ct : ctable) (n : nat) (c : cid) : bool :=
+  forallb (fun b => forallb (fun p => match n with O => false | S n' => chain_ok ct n' p end)
+                            (c_promote (cls_of ct b))) (c_mro (cls_of ct c)).
+Definition chains_ok (ct : ctable) (n : nat) : bool := forallb (chain_ok ct n) (cids_of ct).
+
 Definition wf_ct (ct : ctable) : bool :=
   wf_lat ct &&
   mem_cid (k_object ct) (cids_of ct)
